@@ -11,6 +11,19 @@ impl Range {
     fn max(&self) -> u32 { if self.incl { self.hi } else { self.hi - 1 } }
     fn contains(&self, g: u32) -> bool { g >= self.lo && g <= self.max() }
     fn size(&self) -> u32 { self.max() - self.lo + 1 }
+    fn set(&self, t: &mut TimerDevice) { if self.incl { t.set_range(self.lo..=self.hi); } else { t.set_range(self.lo..self.hi); } }
+    /// The same configuration reached along different paths: 0 constructed with it; 1 constructed with another range, then set_range;
+    /// 2 another range, set_exact(3), then set_range (or set_exact for an exact count); 3 another range, set_range(2..=5), then set_exact / set_range.
+    /// Paths 1-3 end with reset_remaining() so that the new configuration starts a fresh interval.
+    fn make_via(&self, path: u8, seed: Option<u64>) -> TimerDevice {
+        if path == 0 { return self.make(seed); }
+        let mut t = TimerDevice::new(seed, 7..=9, 0x81, 4);
+        if path == 2 { t.set_exact(3); }
+        if path == 3 { t.set_range(2..=5); }
+        if path >= 2 && self.incl && self.lo == self.hi && self.lo >= 1 && path == 3 { t.set_exact(self.lo); } else { self.set(&mut t); }
+        t.reset_remaining();
+        t
+    }
     fn make(&self, seed: Option<u64>) -> TimerDevice { if self.incl { TimerDevice::new(seed, self.lo..=self.hi, 0x81, 4) } else { TimerDevice::new(seed, self.lo..self.hi, 0x81, 4) } }
 }
 fn ranges() -> Vec<Range> {
@@ -22,7 +35,7 @@ fn ranges() -> Vec<Range> {
 
 /// events applied before poll i: 1 = disable, 2 = enable, 3 = io_reset
 #[derive(Clone, Debug, Default)]
-struct Plan { choices: Vec<u32>, events: Vec<(u32, u8)> }
+struct Plan { choices: Vec<u32>, events: Vec<(u32, u8)>, path: u8 }
 
 struct Trace { fires: Vec<bool>, samples_asked: Vec<u32>, enabled: Vec<bool>, resets: Vec<u32> }
 
@@ -32,6 +45,7 @@ fn run_hooked(r: Range, plan: &Plan, polls: u32) -> Result<Trace, String> {
     let choices = plan.choices.clone();
     let a2 = asked.clone();
     verif::set_timer_sampler(Some(Box::new(move |start, end, incl| {
+        if (start, end, incl) != (r.lo, r.hi, r.incl) { return None; } // draws for another configuration on the way (paths 1-3): left to the RNG
         let mut a = a2.borrow_mut();
         let k = a.len();
         let size = if incl { end - start + 1 } else { end - start };
@@ -39,7 +53,7 @@ fn run_hooked(r: Range, plan: &Plan, polls: u32) -> Result<Trace, String> {
         Some(start + choices.get(k).copied().unwrap_or(0))
     })));
     let res = catch(|| {
-        let mut t = r.make(Some(1));
+        let mut t = r.make_via(plan.path, Some(1));
         t.enabled = true;
         let mut tr = Trace { fires: vec![], samples_asked: vec![], enabled: vec![], resets: vec![] };
         for i in 0..polls {
@@ -92,11 +106,11 @@ fn judge(r: Range, tr: &Trace, what: &str) -> Result<(), (String, String)> {
 fn fires_str(tr: &Trace) -> String { tr.fires.iter().map(|f| if *f { '!' } else { '.' }).collect() }
 
 /// Exhaustive DFS over sample sequences for one (range, events) configuration.
-fn explore(r: Range, events: &[(u32, u8)], polls: u32, acc: &mut Acc, case_prefix: &str) {
+fn explore(r: Range, events: &[(u32, u8)], path: u8, polls: u32, acc: &mut Acc, case_prefix: &str) {
     let mut stack: Vec<Vec<u32>> = vec![vec![]];
     while let Some(prefix) = stack.pop() {
-        let plan = Plan { choices: prefix.clone(), events: events.to_vec() };
-        let what = format!("range {r:?} events {events:?} samples {prefix:?}");
+        let plan = Plan { choices: prefix.clone(), events: events.to_vec(), path };
+        let what = format!("range {r:?} (configuration path {path}) events {events:?} samples {prefix:?}");
         acc.evals += 1; acc.traces += 1; acc.transitions += polls as u64;
         match run_hooked(r, &plan, polls) {
             Err(p) => { acc.violation(format!("panic:{}", panic_site(&p)), format!("{case_prefix}:{}", prefix.iter().map(|x| x.to_string()).collect::<Vec<_>>().join(",")), format!("{what}: {p}")); continue; }
@@ -130,16 +144,19 @@ fn parse_events(s: &str) -> Vec<(u32, u8)> { s.split(';').filter(|x| !x.is_empty
 fn events_str(e: &[(u32, u8)]) -> String { e.iter().map(|(a, b)| format!("{a}/{b}")).collect::<Vec<_>>().join(";") }
 
 pub fn run(ctx: &Ctx) -> Report {
-    let mut rep = Report::new("exact counts n=1..8 and every non-empty range lo..=hi / lo..hi with 0<=lo<=hi<=4; through hook H2 every RNG sample is a branch point, so EVERY sample sequence (first 7 samples) is run on the real TimerDevice for 40 polls; deviations: disable / io_reset at each of the first 14 polls (1 deviation) and disable-then-enable / double reset pairs (2 deviations); oracle (the property itself): polls strictly between consecutive interrupts within the range (= n for exact n), first interrupt at most max+1 polls after enable/reset, never while disabled; plus unhooked runs: same seed => same sequence (6 seeds x 2), the same device inside a Simulator (interrupt priorities 1, 4, 7; one poll per instruction cycle) observed through a pass-through probe, and Simulator::reset() after the range was shortened mid-interval (24 cases). non-trivial = runs with at least one interrupt");
+    let mut rep = Report::new("exact counts n=1..8 and every non-empty range lo..=hi / lo..hi with 0<=lo<=hi<=4; through hook H2 every RNG sample is a branch point, so EVERY sample sequence (first 7 samples) is run on the real TimerDevice for 40 polls; each configuration also reached through setter sequences (another range then set_range; set_exact(3) then set_range; set_range(2..=5) then set_exact/set_range; each followed by reset_remaining); deviations: disable / io_reset at each of the first 14 polls (1 deviation) and disable-then-enable / double reset pairs (2 deviations); oracle (the property itself): polls strictly between consecutive interrupts within the range (= n for exact n), first interrupt at most max+1 polls after enable/reset, never while disabled; plus unhooked runs: same seed => same sequence (6 seeds x 2), the same device inside a Simulator (interrupt priorities 1, 4, 7; one poll per instruction cycle) observed through a pass-through probe, and Simulator::reset() after the range was shortened mid-interval (24 cases). non-trivial = runs with at least one interrupt");
     let rs = ranges();
     let polls = 40;
     let evs = event_sets(polls, 2);
     let nr = rs.len() as u64; let ne = evs.len() as u64;
     let ne_eff = ctx.pick(ne.min(29), ne); // quick: no-deviation and single deviations; thorough: pairs too
+    let npath_ev = ctx.pick(5u64, 29u64);
     let r = sweep(ctx, nr * ne_eff, 1, |k, acc| {
         let (ri, ei) = ((k / ne_eff) as usize, (k % ne_eff) as usize);
         acc.count(if evs[ei].is_empty() { "configs_0_deviations" } else if evs[ei].len() == 1 { "configs_1_deviation" } else { "configs_2_deviations" }, 1);
-        explore(rs[ri], &evs[ei], polls, acc, &format!("h:{ri}:{}", events_str(&evs[ei])));
+        explore(rs[ri], &evs[ei], 0, polls, acc, &format!("h:{ri}:{}", events_str(&evs[ei])));
+        // the same configuration reached through set_range / set_exact sequences
+        if (ei as u64) < npath_ev { for path in 1..=3u8 { acc.count("configs_via_setters", 1); explore(rs[ri], &evs[ei], path, polls, acc, &format!("h{path}:{ri}:{}", events_str(&evs[ei]))); } }
         acc.sample(k, ctx.seed, 41, || format!("range {:?} events {:?}", rs[ri], evs[ei]));
     });
     rep.absorb(r);
@@ -230,12 +247,13 @@ pub fn replay(case: &str) -> Option<String> {
     let p: Vec<&str> = case.splitn(4, ':').collect();
     let rs = ranges();
     match *p.first()? {
-        "h" => {
+        h @ ("h" | "h1" | "h2" | "h3") => {
+            let path: u8 = h[1..].parse().unwrap_or(0);
             let r = rs[p.get(1)?.parse::<usize>().ok()?];
             let events = parse_events(p.get(2)?);
             let choices: Vec<u32> = p.get(3)?.split(',').filter(|x| !x.is_empty()).filter_map(|x| x.parse().ok()).collect();
-            let what = format!("range {r:?} events {events:?} samples {choices:?}");
-            match run_hooked(r, &Plan { choices, events }, 40) { Ok(tr) => judge(r, &tr, &what).err().map(|x| format!("[{}] {}", x.0, x.1)), Err(p) => Some(p) }
+            let what = format!("range {r:?} (configuration path {path}) events {events:?} samples {choices:?}");
+            match run_hooked(r, &Plan { choices, events, path }, 40) { Ok(tr) => judge(r, &tr, &what).err().map(|x| format!("[{}] {}", x.0, x.1)), Err(p) => Some(p) }
         }
         "u" => { let r = rs[p.get(1)?.parse::<usize>().ok()?]; let seed: u64 = p.get(2)?.parse().ok()?;
             let fires: Vec<bool> = catch(|| { let mut t = r.make(Some(seed)); t.enabled = true; (0..200).map(|_| t.poll_interrupt().is_some()).collect() }).ok()?;
